@@ -2,7 +2,7 @@
 the model (lean/QuillModel/Tsc/*.lean, Props/C05Tsc.lean, Obligations/Tsc.lean, extraction tools/extractors/tsc.py;
 correspondence stream tools/tsc_stream.py = harness h3_tsc on the real class vs `driver tsc`).
 Proved: monotone between resyncs, the exact effect of a resync (shift by the drift ± 1 ns), per-thread order independent of
-the conversion; witnesses that the code as it is writes decreasing timestamps / inverts two threads across a resync (F26).
+the conversion; witnesses that the code as it is writes decreasing timestamps / inverts two threads across a resync (F33).
 The ordering of TSC statements ACROSS a resync is not claimed (TODO: coordinator decides fix vs known finding)."""
 THEOREMS = {
     "C05": ["Tsc.C05Tsc_monotone_between_resyncs", "Tsc.C05Tsc_value_independent_of_reads", "Tsc.C05Tsc_resync_shift",
